@@ -335,7 +335,9 @@ func (serviceCore *ServiceCore) CreateJWTForTokenRequest(audience string) (strin
 }
 
 func (serviceCore *ServiceCore) RegisterClient(clientInfo *ClientInfo) {
+	verifhook.Acquire(serviceCore, "security.persist", serviceCore)
 	serviceCore.persistLock.Lock()
+	defer verifhook.Release(serviceCore, "security.persist", serviceCore)
 	defer serviceCore.persistLock.Unlock()
 
 	if clientInfo.Deleted {
@@ -360,7 +362,9 @@ func (serviceCore *ServiceCore) GetClients() map[string]*ClientInfo {
 }
 
 func (serviceCore *ServiceCore) DeleteClientAccessControls(clientID string) {
+	verifhook.Acquire(serviceCore, "security.persist", serviceCore)
 	serviceCore.persistLock.Lock()
+	defer verifhook.Release(serviceCore, "security.persist", serviceCore)
 	defer serviceCore.persistLock.Unlock()
 	serviceCore.deleteClientAccessControls(clientID)
 }
@@ -374,7 +378,9 @@ func (serviceCore *ServiceCore) deleteClientAccessControls(clientID string) {
 }
 
 func (serviceCore *ServiceCore) SetClientAccessControls(clientID string, acls []*AccessControl) {
+	verifhook.Acquire(serviceCore, "security.persist", serviceCore)
 	serviceCore.persistLock.Lock()
+	defer verifhook.Release(serviceCore, "security.persist", serviceCore)
 	defer serviceCore.persistLock.Unlock()
 
 	serviceCore.accessControls.Store(clientID, acls)
